@@ -76,7 +76,8 @@ CLAIMED = {
              "returning normally or failing (SDBNested.lean: mutual structural induction over the nested inductive Body, carrying what a "
              "run leaves behind beyond the observables — journal suffix whose reversal restores the state, younger revision ids only, "
              "untouched outside accounts — on both sides), and finally with NO condition on the accounts (SDBObs.lean, "
-             "C03_any_body_simulates_reference_partial): any tree of writes, CreateAccount calls (where evm.create may make them) and "
+             "C03_any_body_simulates_reference_partial): any tree of writes, reads (account reads, GetState, GetCommittedState: they cache "
+             "objects and origins and are proved observationally inert), CreateAccount calls (where evm.create may make them) and "
              "nested frames on ANY accounts — cached, first loaded inside a frame, absent and created inside a frame that is then "
              "reverted (createObjectChange / resetObjectChange are undone too) — ends related to the reference; with sim_init this is "
              "the whole body of a transaction without precompile calls; and through the WRITE-BACK (SDBTx.lean, "
